@@ -58,12 +58,13 @@ SortKeys(cs) ==
     [] cs.op = "s_sort_values" -> <<cs.s.vals>>
     [] cs.op = "f_sort_index" -> <<cs.f.index>>
     [] cs.op = "f_sort_columns" -> <<cs.f.columns>>
+    [] cs.op \in {"s_sort_index_key", "f_sort_index_key"} -> cs.keycols      \* what the key function returned, primary depth first
     [] cs.op = "f_sort_values" -> [k \in 1..Len(cs.by) |-> At(cs.f.cols, Find(cs.f.columns, cs.by[k])).vals]      \* rows ordered by columns
     [] cs.op = "f_sort_values_axis0" -> [k \in 1..Len(cs.by) |-> LET r == Find(cs.f.index, cs.by[k]) IN [j \in 1..NCols(cs.f) |-> At(cs.f.cols[j].vals, r)]]
 SortLen(cs) == Len(SortKeys(cs)[1])
 SortApply(cs, order) ==
-  CASE cs.op \in {"s_sort_index", "s_sort_values"} -> SeriesTake(cs.s, order)
-    [] cs.op \in {"f_sort_index", "f_sort_values"} -> FrameTakeRows(cs.f, order)
+  CASE cs.op \in {"s_sort_index", "s_sort_values", "s_sort_index_key"} -> SeriesTake(cs.s, order)
+    [] cs.op \in {"f_sort_index", "f_sort_values", "f_sort_index_key"} -> FrameTakeRows(cs.f, order)
     [] cs.op \in {"f_sort_columns", "f_sort_values_axis0"} -> FrameTakeCols(cs.f, order)
 SortResult(cs) == SortApply(cs, SortOrder(SortKeys(cs), SortLen(cs), cs.ascending))
 =============================================================================
